@@ -457,6 +457,17 @@ def _complex_pow():
     return b
 
 
+def _complex_literal():
+    def b():
+        m, V = space("triangle", "P", 1)
+        u, v = TrialFunction(V), TestFunction(V)
+        f = Coefficient(V)
+        # literals with both parts non-zero as operands of *, / and unary minus; a purely imaginary divisor
+        return [(1.5 + 2j) * f * inner(u, v) * dx - inner(grad(u), grad(v)) / (0.5 - 1j) * dx + inner(f * u / 2j, v) * dx,
+                -(2 - 3j) * f * ufl.conj(v) * dx]
+    return b
+
+
 def _complex_const_conj():
     def b():
         m, V = space("triangle", "P", 1)
@@ -531,6 +542,7 @@ def complex_forms():
     return [E("complex_sesq", _complex_sesq(), tags=("cell", "complex")),
             E("complex_helmholtz", _complex_helmholtz(), tags=("cell", "facet", "complex")),
             E("complex_pow", _complex_pow(), tags=("cell", "complex")),
+            E("complex_literal", _complex_literal(), tags=("cell", "complex")),
             E("complex_const_conj", _complex_const_conj(), tags=("cell", "complex")),
             E("complex_rhs_facets", _complex_rhs_facets(), tags=("cell", "facet", "interior", "complex"))]
 
@@ -554,7 +566,7 @@ def _complex_helmholtz():
         k = Constant(m)
         f = Coefficient(V)
         return [inner(grad(u), grad(v)) * dx - k * k * inner(u, v) * dx + 1j * k * inner(u, v) * ds
-                + inner(f, v) * dx + ufl.imag(f) * ufl.real(k) * inner(u, v) * dx]
+                + ufl.imag(f) * ufl.real(k) * inner(u, v) * dx, inner(f, v) * dx + 1j * k * inner(f, v) * ds]
     return b
 
 
